@@ -72,7 +72,7 @@ Notation classify := (classify impl_forms_ctx).
 Lemma creates_ctx_impl i : creates_ctx i = impl_forms_ctx i.
 Proof. reflexivity. Qed.
 
-(* stacking.go 126-128: the guard of panic("expected auto z-index") is unsatisfiable *)
+(* stacking.go 129-131: the guard of panic("expected auto z-index") is unsatisfiable *)
 Lemma dispatch_panic_unreachable i :
   creates_ctx i = false -> bpos i = true -> bz i = None.
 Proof.
@@ -81,33 +81,6 @@ Proof.
 Qed.
 
 (* ------------------------------------------------------------------ well-formed trees *)
-
-(* the shape layout gives to inline formatting contexts; see the comment of
-   C16_paint_order_spec in Properties/C16.v *)
-Definition kept (c : box) : bool :=
-  match cl c with CFlow | CAtomic => true | _ => false end.
-Definition flow_line (c : box) : bool :=
-  match cl c with CFlow => is_linebox (bkind (binfo_of c)) | _ => false end.
-Definition inline_ok (c : box) : bool :=
-  match cl c with
-  | CFlow => match bkind (binfo_of c) with
-             | KInline | KLine | KText | KBlockReplaced | KInlineReplaced => true
-             | _ => false
-             end
-  | _ => true
-  end.
-
-Fixpoint wf_shape (b : box) : bool :=
-  match b with
-  | Box i cs =>
-    (* W0: only parent boxes have children *)
-    (is_parent (bkind i) || match cs with [] => true | _ => false end)
-    (* W1: a box has only line boxes as in-flow children, or none *)
-    && (forallb flow_line (filter kept cs) || forallb (fun c => negb (flow_line c)) (filter kept cs))
-    (* W2: line and inline boxes contain inline-level boxes *)
-    && (negb (is_line (bkind i)) || forallb inline_ok cs)
-    && forallb wf_shape cs
-  end.
 
 Lemma wf_children i cs : wf_shape (Box i cs) = true -> Forall (fun c => wf_shape c = true) cs.
 Proof.
@@ -375,12 +348,12 @@ Proof.
   destruct Hd as [->|Hd]; [exact (Hw _ Hc)|]. exact (IH c Hc d (Hw _ Hc) Hd).
 Qed.
 
-Lemma hoisted_subs b d : In d (hoisted impl_forms_ctx b) -> In d (subs b).
+Lemma hoisted_subs_gen f b d : In d (hoisted f b) -> In d (subs b).
 Proof.
   revert d. induction b as [i cs IH] using box_ind'. intros d Hd.
   simpl in Hd. apply in_flat_map in Hd. destruct Hd as [c [Hc Hd]].
   rewrite Forall_forall in IH. simpl. apply in_flat_map. exists c. split; [exact Hc|].
-  destruct (PaintSpec.cl impl_forms_ctx c).
+  destruct (PaintSpec.cl f c).
   - destruct Hd as [->|[]]. left; reflexivity.
   - destruct Hd as [->|Hd]; [left; reflexivity|right; exact (IH c Hc d Hd)].
   - right; exact (IH c Hc d Hd).
@@ -388,26 +361,31 @@ Proof.
   - right; exact (IH c Hc d Hd).
 Qed.
 
-Lemma flow_floats_subs b d : In d (flow_floats impl_forms_ctx b) -> In d (subs b).
+Lemma flow_floats_subs_gen f b d : In d (flow_floats f b) -> In d (subs b).
 Proof.
   revert d. induction b as [i cs IH] using box_ind'. intros d Hd.
   simpl in Hd. apply in_flat_map in Hd. destruct Hd as [c [Hc Hd]].
   rewrite Forall_forall in IH. simpl. apply in_flat_map. exists c. split; [exact Hc|].
-  destruct (PaintSpec.cl impl_forms_ctx c); try (destruct Hd; fail).
+  destruct (PaintSpec.cl f c); try (destruct Hd; fail).
   - destruct Hd as [->|[]]. left; reflexivity.
   - right; exact (IH c Hc d Hd).
 Qed.
 
-Lemma flow_desc_subs sel b d : In d (flow_desc impl_forms_ctx sel b) -> In d (subs b).
+Lemma flow_desc_subs_gen f sel b d : In d (flow_desc f sel b) -> In d (subs b).
 Proof.
   revert d. induction b as [i cs IH] using box_ind'. intros d Hd.
   simpl in Hd. apply in_flat_map in Hd. destruct Hd as [c [Hc Hd]].
   rewrite Forall_forall in IH. simpl. apply in_flat_map. exists c. split; [exact Hc|].
-  destruct (PaintSpec.cl impl_forms_ctx c); try (destruct Hd; fail).
+  destruct (PaintSpec.cl f c); try (destruct Hd; fail).
   apply in_app_or in Hd. destruct Hd as [Hd|Hd].
   - destruct (sel (bkind (binfo_of c))); [|destruct Hd]. destruct Hd as [->|[]]. left; reflexivity.
   - right; exact (IH c Hc d Hd).
 Qed.
+
+Definition hoisted_subs := hoisted_subs_gen impl_forms_ctx.
+Definition flow_floats_subs := flow_floats_subs_gen impl_forms_ctx.
+Definition flow_desc_subs := flow_desc_subs_gen impl_forms_ctx.
+
 
 (* a hoisted box that does not form a context is positioned with z-index auto *)
 Lemma hoisted_level b d :
@@ -620,10 +598,8 @@ Section Main.
         cbn [inline_paint]. rewrite Ecl.
         unfold dil_child.
         destruct (bkind i) eqn:Ek; try discriminate Hok; cbn [is_text css_text css_replaced].
-        + (* block-level replaced *) rewrite dil_box_unfold, Ek. reflexivity.
         + (* inline box *) rewrite dil_box_unfold, Ek. cbn [is_line]. rewrite Hkids by reflexivity. reflexivity.
         + (* inline replaced *) rewrite dil_box_unfold, Ek. reflexivity.
-        + (* line box *) rewrite dil_box_unfold, Ek. cbn [is_line]. rewrite Hkids by reflexivity. reflexivity.
         + (* text *) reflexivity.
     Qed.
 
@@ -743,4 +719,713 @@ Section Main.
         rewrite last_is_line_none by exact E1. rewrite E2. reflexivity.
     Qed.
   End Inline.
+
+  (* ---------------------------------------------------------------- child contexts: steps 3, 8, 9 *)
+  Notation blevel := (PaintSpec.blevel css_level).
+
+  Lemma ctx_lists (H : list box) (sub : box -> list event) :
+    (forall d, In d H -> wf_shape d = true) ->
+    (forall d, In d H -> impl_forms_ctx (binfo_of d) = false -> css_level (binfo_of d) = 0%Z) ->
+    (forall d, In d H -> paint (anyctx d) = Ok (sub d)) ->
+    seqM paint (isort ctx_z (filter (fun c => (ctx_z c <? 0)%Z) (map anyctx H)))
+      = Ok (flat_map sub (zsort (filter (fun d => impl_forms_ctx (binfo_of d) && (blevel d <? 0)%Z) H)))
+    /\ seqM paint (filter (fun c => (ctx_z c =? 0)%Z) (map anyctx H))
+      = Ok (flat_map sub (filter (fun d => negb (impl_forms_ctx (binfo_of d)) || (blevel d =? 0)%Z) H))
+    /\ seqM paint (isort ctx_z (filter (fun c => negb (ctx_z c <? 0)%Z && negb (ctx_z c =? 0)%Z) (map anyctx H)))
+      = Ok (flat_map sub (zsort (filter (fun d => impl_forms_ctx (binfo_of d) && (0 <? blevel d)%Z) H))).
+  Proof.
+    intros Hwf Hlev Hp.
+    assert (Hz : forall d, In d H -> ctx_z (anyctx d) = blevel d).
+    { intros d Hd. apply ctx_z_anyctx. auto. }
+    assert (Hsort : forall l, (forall d, In d l -> In d H) ->
+              seqM paint (isort ctx_z (map anyctx l)) = Ok (flat_map sub (zsort l))).
+    { intros l Hl. rewrite isort_map, zsort_isort.
+      rewrite (isort_ext (fun a => ctx_z (anyctx a)) (fun b => css_level (binfo_of b)) l)
+        by (intros a Ha; apply Hz; auto).
+      apply seqM_map_ok. intros a Ha. apply Hp. apply Hl. apply (isort_in (fun b : box => css_level (binfo_of b)) l a). exact Ha. }
+    split; [|split].
+    - rewrite filter_map_comm.
+      rewrite (filter_ext_in' (fun a => (ctx_z (anyctx a) <? 0)%Z)
+                              (fun d => impl_forms_ctx (binfo_of d) && (blevel d <? 0)%Z) H).
+      + apply Hsort. intros d Hd. apply filter_In in Hd. tauto.
+      + intros d Hd. rewrite (Hz d Hd). destruct (impl_forms_ctx (binfo_of d)) eqn:Ef; [reflexivity|].
+        unfold PaintSpec.blevel. rewrite (Hlev d Hd Ef). reflexivity.
+    - rewrite filter_map_comm.
+      rewrite (filter_ext_in' (fun a => (ctx_z (anyctx a) =? 0)%Z)
+                              (fun d => negb (impl_forms_ctx (binfo_of d)) || (blevel d =? 0)%Z) H).
+      + apply seqM_map_ok. intros a Ha. apply Hp. apply filter_In in Ha. tauto.
+      + intros d Hd. rewrite (Hz d Hd). destruct (impl_forms_ctx (binfo_of d)) eqn:Ef; [reflexivity|].
+        unfold PaintSpec.blevel. rewrite (Hlev d Hd Ef). reflexivity.
+    - rewrite filter_map_comm.
+      rewrite (filter_ext_in' (fun a => negb (ctx_z (anyctx a) <? 0)%Z && negb (ctx_z (anyctx a) =? 0)%Z)
+                              (fun d => impl_forms_ctx (binfo_of d) && (0 <? blevel d)%Z) H).
+      + apply Hsort. intros d Hd. apply filter_In in Hd. tauto.
+      + intros d Hd. rewrite (Hz d Hd). destruct (impl_forms_ctx (binfo_of d)) eqn:Ef.
+        * simpl. destruct (Z.ltb_spec (blevel d) 0); destruct (Z.eqb_spec (blevel d) 0);
+            destruct (Z.ltb_spec 0 (blevel d)); simpl; try reflexivity; lia.
+        * unfold PaintSpec.blevel. rewrite (Hlev d Hd Ef). reflexivity.
+  Qed.
+
+  Lemma zsort_nil : zsort [] = [].
+  Proof. rewrite zsort_isort. reflexivity. Qed.
+
+  (* ---------------------------------------------------------------- the ten steps *)
+  Lemma assemble (o t c p2 : bool) id (A3 A4 A5 A6 A7 A7b A8 A9 OUT : list event) :
+    ((if o then [Push EOpacity id] else []) ++ (if t then [Push ETransform id] else []) ++
+     (if p2 then [Bg id; Border id] else [])) ++
+    (if c then [Push EClip id] else []) ++ A3 ++ A4 ++ A5 ++ A6 ++ A7 ++ A7b ++ A8 ++ A9 ++
+    ((if c then [Pop EClip id] else []) ++ OUT ++ (if t then [Pop ETransform id] else []) ++
+     (if o then [Pop EOpacity id] else []))
+    = wrap EOpacity o id (wrap ETransform t id
+        ((if p2 then [Bg id; Border id] else []) ++
+         wrap EClip c id (A3 ++ A4 ++ A5 ++ A6 ++ (A7 ++ A7b) ++ A8 ++ A9) ++ OUT)).
+  Proof.
+    unfold wrap. destruct o, t, c, p2; simpl; repeat rewrite <- app_assoc; simpl; rewrite ?app_nil_r; reflexivity.
+  Qed.
+
+  Lemma paint_ctx_explicit n :
+    forall b sh, height b <= n -> wf_shape b = true ->
+                 paint (ctx_explicit sh b) = Ok (SPEC n (negb sh) b).
+  Proof.
+    induction n as [|n' IHn]; intros b sh Hh Hwf.
+    { destruct b; simpl in Hh; lia. }
+    (* what the induction gives for strict descendants *)
+    assert (Hd_wf : forall d, In d (subs b) -> wf_shape d = true) by (intros d Hd; exact (subs_wf b d Hwf Hd)).
+    assert (Hd_h : forall d, In d (subs b) -> height d <= n') by (intros d Hd; pose proof (subs_height b d Hd); lia).
+    assert (Hpseudo : forall d, In d (subs b) -> paint (pctx d) = Ok (SPEC n' false d)).
+    { intros d Hd. rewrite pctx_explicit by auto. apply (IHn d true); auto. }
+    assert (Hany : forall d, In d (subs b) -> paint (anyctx d) = Ok (SPEC n' (impl_forms_ctx (binfo_of d)) d)).
+    { intros d Hd. unfold anyctx. destruct (impl_forms_ctx (binfo_of d)).
+      - rewrite rctx_explicit by auto. apply (IHn d false); auto.
+      - apply Hpseudo; exact Hd. }
+    destruct b as [i cs].
+    set (b := Box i cs) in *.
+    set (atomic := fun d => SPEC n' false d).
+    set (sub := fun d => SPEC n' (impl_forms_ctx (binfo_of d)) d).
+    set (H := if negb sh then hoisted impl_forms_ctx b else []).
+    assert (HH : ctx_children sh b = map anyctx H) by (unfold ctx_children, H; destruct sh; reflexivity).
+    assert (HHsub : forall d, In d H -> In d (subs b)).
+    { intros d Hd. unfold H in Hd. destruct (negb sh); [apply hoisted_subs; exact Hd|destruct Hd]. }
+    assert (HHlev : forall d, In d H -> impl_forms_ctx (binfo_of d) = false -> css_level (binfo_of d) = 0%Z).
+    { intros d Hd. unfold H in Hd. destruct (negb sh); [apply (hoisted_level b); exact Hd|destruct Hd]. }
+    destruct (ctx_lists H sub (fun d Hd => Hd_wf d (HHsub d Hd)) HHlev (fun d Hd => Hany d (HHsub d Hd)))
+      as [E3 [E8 E9]].
+    (* step 4 *)
+    assert (E4 : seqM paint_block (map node_of (flow_desc impl_forms_ctx css_block_level b))
+                 = Ok (flat_map block_decoration (flow_desc impl_forms_ctx css_block_level b))).
+    { apply seqM_map_ok. intros d _. unfold node_of, paint_block, block_decoration.
+      replace (css_table (bkind (binfo_of d))) with (is_table (bkind (binfo_of d))) by (destruct (bkind (binfo_of d)); reflexivity).
+      destruct (is_table (bkind (binfo_of d))); reflexivity. }
+    (* step 5 *)
+    assert (E5 : seqM paint (map pctx (flow_floats impl_forms_ctx b))
+                 = Ok (flat_map atomic (flow_floats impl_forms_ctx b))).
+    { apply seqM_map_ok. intros d Hd. apply Hpseudo. apply flow_floats_subs. exact Hd. }
+    (* inline-blocks inside b *)
+    assert (Hat : forall d, In d (subs b) -> PaintSpec.cl impl_forms_ctx d = CAtomic -> paint (pctx d) = Ok (atomic d)).
+    { intros d Hd _. apply Hpseudo. exact Hd. }
+    (* step 6 *)
+    assert (E6 : (if is_inline (bkind i) then Ok [Bg (bid i); Border (bid i)] +++ seqM dil_child (prune_kids cs) else Ok [])
+                 = Ok (if css_inline_box (bkind i) then inline_root_paint impl_forms_ctx atomic b else [])).
+    { replace (css_inline_box (bkind i)) with (is_inline (bkind i)) by (destruct (bkind i); reflexivity).
+      destruct (is_inline (bkind i)) eqn:Ei; [|reflexivity].
+      rewrite (line_children atomic i cs Hwf) by (try exact Hat; destruct (bkind i); try discriminate; reflexivity).
+      reflexivity. }
+    (* step 7 *)
+    assert (E7a : step7 i (prune_kids cs) = Ok (block_content impl_forms_ctx atomic b)).
+    { apply (step7_spec atomic b Hwf Hat). }
+    assert (E7b : seqM step7_node (map node_of (flow_desc impl_forms_ctx bac_sel b))
+                  = Ok (flat_map (block_content impl_forms_ctx atomic) (flow_desc impl_forms_ctx bac_sel b))).
+    { apply seqM_map_ok. intros d Hd. apply flow_desc_subs in Hd.
+      unfold node_of, step7_node. apply (step7_spec atomic d (Hd_wf d Hd)).
+      intros e He _. apply Hpseudo. apply (subs_trans e d b); assumption. }
+    (* step 10 *)
+    assert (E10 : outlines (NBox i (prune_kids cs)) = map (fun d => Outline (bid (binfo_of d))) (flow_all impl_forms_ctx b)).
+    { simpl. f_equal. apply outlines_spec. }
+    (* assemble *)
+    unfold ctx_explicit, new_context. rewrite HH. change (binfo_of b) with i. change (children b) with cs.
+    rewrite paint_unfold. cbv zeta.
+    rewrite E3, E4, E5, E6, E7a, E7b, E8, E9, E10. rewrite !app2_ok. f_equal.
+    rewrite assemble.
+    cbn [spec_ctx]. cbv zeta. change (binfo_of b) with i. fold atomic. fold sub.
+    change (if negb sh then hoisted impl_forms_ctx b else []) with H.
+    replace (css_paints_box_decoration (bkind i)) with (point2 (bkind i)) by (destruct (bkind i); reflexivity).
+    replace (css_transformable (bkind i)) with (negb (is_inline (bkind i))) by (destruct (bkind i); reflexivity).
+    reflexivity.
+  Qed.
+
+  Theorem paint_order_spec b :
+    wf_shape b = true -> paint (from_box b) = Ok (spec_paint impl_forms_ctx css_level zsort b).
+  Proof.
+    intros Hwf. rewrite from_box_explicit by exact Hwf.
+    unfold spec_paint. apply (paint_ctx_explicit (S (height b)) b false); [lia|exact Hwf].
+  Qed.
+
+  (* ---------------------------------------------------------------- the page *)
+  Lemma height_le_fold roots d :
+    In d roots -> height d <= fold_right (fun c m => Nat.max (height c) m) 0 roots.
+  Proof.
+    induction roots as [|a r IH]; intros Hd; [destruct Hd|]. simpl.
+    destruct Hd as [->|Hd]; [lia|]. specialize (IH Hd). lia.
+  Qed.
+
+  Theorem paint_page_spec pi canvas roots :
+    bkind pi = KPage -> bopac pi = false -> btrans pi = false ->
+    Forall (fun r => wf_shape r = true) roots ->
+    paint_page pi canvas roots = Ok (spec_page impl_forms_ctx css_level zsort pi canvas roots).
+  Proof.
+    intros Hk Ho Ht Hwf. unfold paint_page, from_page, new_context, spec_page.
+    set (n := S (fold_right (fun c m => Nat.max (height c) m) 0 roots)).
+    set (sub := fun d => SPEC n true d).
+    rewrite Forall_forall in Hwf.
+    assert (Hp : forall d, In d roots -> paint (from_box d) = Ok (sub d)).
+    { intros d Hd. rewrite from_box_explicit by auto.
+      apply (paint_ctx_explicit n d false); [|auto].
+      pose proof (height_le_fold roots d Hd). unfold n. lia. }
+    assert (Hz : forall d, In d roots -> ctx_z (from_box d) = blevel d).
+    { intros d Hd. rewrite from_box_explicit by auto. apply ctx_z_explicit. }
+    assert (Hsort : forall l, (forall d, In d l -> In d roots) ->
+              seqM paint (isort ctx_z (map from_box l)) = Ok (flat_map sub (zsort l))).
+    { intros l Hl. rewrite isort_map, zsort_isort.
+      rewrite (isort_ext (fun a => ctx_z (from_box a)) (fun b => css_level (binfo_of b)) l)
+        by (intros a Ha; apply Hz; auto).
+      apply seqM_map_ok. intros a Ha. apply Hp. apply Hl.
+      apply (isort_in (fun b : box => css_level (binfo_of b)) l a). exact Ha. }
+    rewrite paint_unfold. cbv zeta. rewrite Hk, Ho, Ht. simpl point2. simpl is_inline. simpl is_page.
+    rewrite andb_false_r. cbn [andb].
+    rewrite !filter_map_comm.
+    rewrite (filter_ext_in' (fun a => (ctx_z (from_box a) <? 0)%Z) (fun d => (blevel d <? 0)%Z) roots)
+      by (intros d Hd; rewrite (Hz d Hd); reflexivity).
+    rewrite (filter_ext_in' (fun a => (ctx_z (from_box a) =? 0)%Z) (fun d => (blevel d =? 0)%Z) roots)
+      by (intros d Hd; rewrite (Hz d Hd); reflexivity).
+    rewrite (filter_ext_in' (fun a => negb (ctx_z (from_box a) <? 0)%Z && negb (ctx_z (from_box a) =? 0)%Z)
+                            (fun d => (0 <? blevel d)%Z) roots).
+    2:{ intros d Hd. rewrite (Hz d Hd).
+        destruct (Z.ltb_spec (blevel d) 0); destruct (Z.eqb_spec (blevel d) 0);
+          destruct (Z.ltb_spec 0 (blevel d)); simpl; try reflexivity; lia. }
+    rewrite (Hsort (filter (fun d => (blevel d <? 0)%Z) roots)) by (intros d Hd; apply filter_In in Hd; tauto).
+    rewrite (Hsort (filter (fun d => (0 <? blevel d)%Z) roots)) by (intros d Hd; apply filter_In in Hd; tauto).
+    rewrite (seqM_map_ok from_box paint sub) by (intros a Ha; apply Hp; apply filter_In in Ha; tauto).
+    unfold step7. rewrite Hk. simpl is_replaced. unfold last_is_line. simpl.
+    reflexivity.
+  Qed.
+
+  (* ---------------------------------------------------------------- the three lists *)
+  (* stacking.go 32-73: whatever the child contexts, the three lists are the
+     three sign classes, negative and positive ones ordered by z-index with
+     ties in the order of childContexts (= tree order) *)
+  Lemma new_context_partition i kids cc blocks floats bac :
+    match new_context i kids cc blocks floats bac with
+    | Ctx _ _ _ neg zero pos _ _ _ =>
+      stable_sorted_of ctx_z (filter (fun c => (ctx_z c <? 0)%Z) cc) neg
+      /\ zero = filter (fun c => (ctx_z c =? 0)%Z) cc
+      /\ stable_sorted_of ctx_z (filter (fun c => (0 <? ctx_z c)%Z) cc) pos
+    end.
+  Proof.
+    unfold new_context. split; [apply isort_contract|split; [reflexivity|]].
+    rewrite (filter_ext_in' (fun c => negb (ctx_z c <? 0)%Z && negb (ctx_z c =? 0)%Z) (fun c => (0 <? ctx_z c)%Z) cc).
+    - apply isort_contract.
+    - intros c _. destruct (Z.ltb_spec (ctx_z c) 0); destruct (Z.eqb_spec (ctx_z c) 0);
+        destruct (Z.ltb_spec 0 (ctx_z c)); simpl; try reflexivity; lia.
+  Qed.
+
+  (* ... and for the context of a box they are the contexts of Appendix E's
+     three classes of descendants, in (z-index, tree order) *)
+  Theorem stable_partition_sort b :
+    wf_shape b = true ->
+    match from_box b with
+    | Ctx _ _ _ neg zero pos _ _ _ =>
+      let H := hoisted impl_forms_ctx b in
+      neg = map anyctx (zsort (filter (fun d => impl_forms_ctx (binfo_of d) && (blevel d <? 0)%Z) H))
+      /\ zero = map anyctx (filter (fun d => negb (impl_forms_ctx (binfo_of d)) || (blevel d =? 0)%Z) H)
+      /\ pos = map anyctx (zsort (filter (fun d => impl_forms_ctx (binfo_of d) && (0 <? blevel d)%Z) H))
+    end.
+  Proof.
+    intros Hwf. rewrite from_box_explicit by exact Hwf.
+    unfold ctx_explicit, new_context, ctx_children. cbv zeta.
+    set (H := hoisted impl_forms_ctx b).
+    assert (Hz : forall d, In d H -> ctx_z (anyctx d) = blevel d).
+    { intros d Hd. apply ctx_z_anyctx. apply (subs_wf b d Hwf). apply hoisted_subs. exact Hd. }
+    assert (Hlev : forall d, In d H -> impl_forms_ctx (binfo_of d) = false -> blevel d = 0%Z).
+    { intros d Hd. apply (hoisted_level b d Hd). }
+    assert (Hsort : forall l, (forall d, In d l -> In d H) -> isort ctx_z (map anyctx l) = map anyctx (zsort l)).
+    { intros l Hl. rewrite isort_map, zsort_isort. f_equal.
+      apply isort_ext. intros a Ha. apply Hz. auto. }
+    rewrite !filter_map_comm.
+    split; [|split].
+    - rewrite (filter_ext_in' (fun a => (ctx_z (anyctx a) <? 0)%Z)
+                              (fun d => impl_forms_ctx (binfo_of d) && (blevel d <? 0)%Z) H).
+      + apply Hsort. intros d Hd. apply filter_In in Hd. tauto.
+      + intros d Hd. rewrite (Hz d Hd). destruct (impl_forms_ctx (binfo_of d)) eqn:Ef; [reflexivity|].
+        rewrite (Hlev d Hd Ef). reflexivity.
+    - f_equal. apply filter_ext_in'. intros d Hd. rewrite (Hz d Hd).
+      destruct (impl_forms_ctx (binfo_of d)) eqn:Ef; [reflexivity|]. rewrite (Hlev d Hd Ef). reflexivity.
+    - rewrite (filter_ext_in' (fun a => negb (ctx_z (anyctx a) <? 0)%Z && negb (ctx_z (anyctx a) =? 0)%Z)
+                              (fun d => impl_forms_ctx (binfo_of d) && (0 <? blevel d)%Z) H).
+      + apply Hsort. intros d Hd. apply filter_In in Hd. tauto.
+      + intros d Hd. rewrite (Hz d Hd). destruct (impl_forms_ctx (binfo_of d)) eqn:Ef.
+        * simpl. destruct (Z.ltb_spec (blevel d) 0); destruct (Z.eqb_spec (blevel d) 0);
+            destruct (Z.ltb_spec 0 (blevel d)); simpl; try reflexivity; lia.
+        * rewrite (Hlev d Hd Ef). reflexivity.
+  Qed.
 End Main.
+
+(* ------------------------------------------------------------------ properties of the specification *)
+
+(* background immediately precedes border, for every box, everywhere *)
+Definition not_bgb (e : event) : bool := match e with Bg _ | Border _ => false | _ => true end.
+
+Inductive paired : list event -> Prop :=
+| paired_nil : paired []
+| paired_bb id l : paired l -> paired (Bg id :: Border id :: l)
+| paired_other e l : not_bgb e = true -> paired l -> paired (e :: l).
+
+Lemma paired_app l1 l2 : paired l1 -> paired l2 -> paired (l1 ++ l2).
+Proof. induction 1; intros H2; simpl; [exact H2|constructor; auto|constructor; auto]. Qed.
+
+Lemma paired_flat_map {A} (f : A -> list event) l : (forall a, In a l -> paired (f a)) -> paired (flat_map f l).
+Proof.
+  induction l as [|a r IH]; intros H; simpl; [constructor|].
+  apply paired_app; [apply H; left; reflexivity|apply IH; intros x Hx; apply H; right; exact Hx].
+Qed.
+
+Lemma paired_wrap e on id l : paired l -> paired (wrap e on id l).
+Proof.
+  intros H. unfold wrap. destruct on; [|exact H].
+  apply paired_other; [reflexivity|]. apply paired_app; [exact H|].
+  apply paired_other; [reflexivity|constructor].
+Qed.
+
+Lemma paired_outlines {A} (f : A -> N) l : paired (map (fun d => Outline (f d)) l).
+Proof. induction l; simpl; [constructor|apply paired_other; [reflexivity|assumption]]. Qed.
+
+Lemma paired_adjacent l : paired l ->
+  forall l1 l2 id, l = l1 ++ Bg id :: l2 -> exists l3, l2 = Border id :: l3.
+Proof.
+  induction 1 as [|id0 l H IH|e l He H IH]; intros l1 l2 id E.
+  - destruct l1; discriminate.
+  - destruct l1 as [|a l1].
+    + simpl in E. injection E as -> <-. eexists; reflexivity.
+    + destruct l1 as [|a' l1].
+      * simpl in E. injection E as _ E. discriminate.
+      * simpl in E. injection E as _ _ E. exact (IH l1 l2 id E).
+  - destruct l1 as [|a l1].
+    + simpl in E. injection E as -> _. discriminate.
+    + simpl in E. injection E as _ E. exact (IH l1 l2 id E).
+Qed.
+
+Lemma paired_adjacent_rev l : paired l ->
+  forall l1 l2 id, l = l1 ++ Border id :: l2 -> exists l0, l1 = l0 ++ [Bg id].
+Proof.
+  induction 1 as [|id0 l H IH|e l He H IH]; intros l1 l2 id E.
+  - destruct l1; discriminate.
+  - destruct l1 as [|a l1].
+    + simpl in E. discriminate.
+    + destruct l1 as [|a' l1].
+      * simpl in E. injection E as Ea Eb _. subst a. subst id0. exists []. reflexivity.
+      * simpl in E. injection E as Ea Eb E. subst a a'. destruct (IH l1 l2 id E) as [l0 ->].
+        exists (Bg id0 :: Border id0 :: l0). reflexivity.
+  - destruct l1 as [|a l1].
+    + simpl in E. injection E as -> _. discriminate.
+    + simpl in E. injection E as Ea E. subst a. destruct (IH l1 l2 id E) as [l0 ->].
+      exists (e :: l0). reflexivity.
+Qed.
+
+(* Push / Pop are balanced and well nested *)
+Definition effect_eqb (a b : effect) : bool :=
+  match a, b with
+  | EClip, EClip | EOpacity, EOpacity | ETransform, ETransform => true
+  | _, _ => false
+  end.
+
+Fixpoint bal (stk : list (effect * N)) (l : list event) : bool :=
+  match l with
+  | [] => match stk with [] => true | _ => false end
+  | Push e id :: r => bal ((e, id) :: stk) r
+  | Pop e id :: r => match stk with
+                     | (e', id') :: s => effect_eqb e e' && N.eqb id id' && bal s r
+                     | [] => false
+                     end
+  | _ :: r => bal stk r
+  end.
+
+Definition balanced (l : list event) : Prop := bal [] l = true.
+
+Lemma bal_app s l1 : bal s l1 = true -> forall stk l2, bal (s ++ stk) (l1 ++ l2) = bal stk l2.
+Proof.
+  revert s. induction l1 as [|e r IH]; intros s H stk l2.
+  - simpl in H. destruct s; [reflexivity|discriminate].
+  - destruct e; simpl in *; try (apply IH; exact H).
+    + apply (IH ((e, id) :: s)). exact H.
+    + destruct s as [|[e' id'] s']; [discriminate|].
+      simpl. destruct (effect_eqb e e' && N.eqb id id'); [|discriminate]. simpl in *.
+      apply IH. exact H.
+Qed.
+
+Lemma balanced_app l1 l2 : balanced l1 -> balanced l2 -> balanced (l1 ++ l2).
+Proof. unfold balanced. intros H1 H2. pose proof (bal_app [] l1 H1 [] l2) as E. simpl in E. rewrite E. exact H2. Qed.
+
+Lemma balanced_flat_map {A} (f : A -> list event) l : (forall a, In a l -> balanced (f a)) -> balanced (flat_map f l).
+Proof.
+  induction l as [|a r IH]; intros H; simpl; [reflexivity|].
+  apply balanced_app; [apply H; left; reflexivity|apply IH; intros x Hx; apply H; right; exact Hx].
+Qed.
+
+Lemma effect_eqb_refl e : effect_eqb e e = true.
+Proof. destruct e; reflexivity. Qed.
+
+Lemma balanced_wrap e on id l : balanced l -> balanced (wrap e on id l).
+Proof.
+  unfold balanced, wrap. intros H. destruct on; [|exact H]. simpl.
+  pose proof (bal_app [] l H [(e, id)] [Pop e id]) as E. simpl in E. rewrite E.
+  rewrite effect_eqb_refl, N.eqb_refl. reflexivity.
+Qed.
+
+Lemma balanced_outlines {A} (f : A -> N) l : balanced (map (fun d => Outline (f d)) l).
+Proof. unfold balanced. induction l; simpl; auto. Qed.
+
+Section SpecProps.
+  Variable forms_ctx : binfo -> bool.
+  Variable level : binfo -> Z.
+  Variable zsort : list box -> list box.
+
+  Notation SP := (spec_ctx forms_ctx level zsort).
+
+  Lemma inline_paint_paired atomic c : (forall d, paired (atomic d)) -> paired (inline_paint forms_ctx atomic c).
+  Proof.
+    intros Ha. induction c as [i cs IH] using box_ind'. cbn [inline_paint].
+    destruct (PaintSpec.classify forms_ctx i); try constructor; try apply Ha.
+    destruct (css_text (bkind i)); [apply paired_other; [reflexivity|constructor]|].
+    destruct (css_replaced (bkind i)); [apply paired_bb; apply paired_other; [reflexivity|constructor]|].
+    apply paired_bb. apply paired_flat_map. rewrite Forall_forall in IH. exact IH.
+  Qed.
+
+  Lemma inline_paint_balanced atomic c : (forall d, balanced (atomic d)) -> balanced (inline_paint forms_ctx atomic c).
+  Proof.
+    intros Ha. induction c as [i cs IH] using box_ind'. cbn [inline_paint].
+    destruct (PaintSpec.classify forms_ctx i); try reflexivity; try apply Ha.
+    destruct (css_text (bkind i)); [reflexivity|].
+    destruct (css_replaced (bkind i)); [reflexivity|].
+    change (balanced ([Bg (bid i); Border (bid i)] ++ flat_map (inline_paint forms_ctx atomic) cs)).
+    apply balanced_app; [reflexivity|]. apply balanced_flat_map. rewrite Forall_forall in IH. exact IH.
+  Qed.
+
+  Lemma block_content_paired atomic x : (forall d, paired (atomic d)) -> paired (block_content forms_ctx atomic x).
+  Proof.
+    intros Ha. destruct x as [i cs]. unfold block_content.
+    destruct (css_replaced (bkind i)); [apply paired_other; [reflexivity|constructor]|].
+    apply paired_flat_map. intros c _. destruct (PaintSpec.cl forms_ctx c); try constructor.
+    destruct (css_line_box _); [apply inline_paint_paired; exact Ha|constructor].
+  Qed.
+
+  Lemma block_content_balanced atomic x : (forall d, balanced (atomic d)) -> balanced (block_content forms_ctx atomic x).
+  Proof.
+    intros Ha. destruct x as [i cs]. unfold block_content.
+    destruct (css_replaced (bkind i)); [reflexivity|].
+    apply balanced_flat_map. intros c _. destruct (PaintSpec.cl forms_ctx c); try reflexivity.
+    destruct (css_line_box _); [apply inline_paint_balanced; exact Ha|reflexivity].
+  Qed.
+
+  Lemma block_decoration_paired d : paired (block_decoration d).
+  Proof.
+    unfold block_decoration. destruct (css_table _).
+    - apply paired_other; [reflexivity|constructor].
+    - apply paired_bb. constructor.
+  Qed.
+
+  Lemma block_decoration_balanced d : balanced (block_decoration d).
+  Proof. unfold block_decoration. destruct (css_table _); reflexivity. Qed.
+
+  Theorem spec_ctx_paired n : forall real b, paired (SP n real b).
+  Proof.
+    induction n as [|n IH]; intros real b; [constructor|].
+    cbn [spec_ctx]. cbv zeta.
+    apply paired_wrap. apply paired_wrap. apply paired_app; [|apply paired_app].
+    - destruct (css_paints_box_decoration _); [apply paired_bb|]; constructor.
+    - apply paired_wrap.
+      apply paired_app; [apply paired_flat_map; intros; apply IH|].
+      apply paired_app; [apply paired_flat_map; intros; apply block_decoration_paired|].
+      apply paired_app; [apply paired_flat_map; intros; apply IH|].
+      apply paired_app.
+      { destruct (css_inline_box _); [|constructor]. destruct b as [i cs]. unfold inline_root_paint.
+        apply paired_bb. apply paired_flat_map. intros. apply inline_paint_paired. intros; apply IH. }
+      apply paired_app; [apply paired_flat_map; intros; apply block_content_paired; intros; apply IH|].
+      apply paired_app; apply paired_flat_map; intros; apply IH.
+    - apply paired_outlines.
+  Qed.
+
+  Theorem spec_ctx_balanced n : forall real b, balanced (SP n real b).
+  Proof.
+    induction n as [|n IH]; intros real b; [reflexivity|].
+    cbn [spec_ctx]. cbv zeta.
+    apply balanced_wrap. apply balanced_wrap. apply balanced_app; [|apply balanced_app].
+    - destruct (css_paints_box_decoration _); reflexivity.
+    - apply balanced_wrap.
+      apply balanced_app; [apply balanced_flat_map; intros; apply IH|].
+      apply balanced_app; [apply balanced_flat_map; intros; apply block_decoration_balanced|].
+      apply balanced_app; [apply balanced_flat_map; intros; apply IH|].
+      apply balanced_app.
+      { destruct (css_inline_box _); [|reflexivity]. destruct b as [i cs]. unfold inline_root_paint.
+        change (balanced ([Bg (bid i); Border (bid i)] ++ flat_map (inline_paint forms_ctx (fun d => SP n false d)) cs)).
+        apply balanced_app; [reflexivity|].
+        apply balanced_flat_map. intros. apply inline_paint_balanced. intros; apply IH. }
+      apply balanced_app; [apply balanced_flat_map; intros; apply block_content_balanced; intros; apply IH|].
+      apply balanced_app; apply balanced_flat_map; intros; apply IH.
+    - apply balanced_outlines.
+  Qed.
+End SpecProps.
+
+(* ------------------------------------------------------------------ whose events lie between Push and Pop *)
+
+Definition ev_id (e : event) : N :=
+  match e with
+  | Bg id | Border id | Content id | Outline id | Push _ id | Pop _ id | TableLayers id | CanvasBg id => id
+  end.
+
+Definition boxes (b : box) : list box := b :: subs b.
+Definition ids (b : box) : list N := map (fun x => bid (binfo_of x)) (boxes b).
+
+Definition is_push_pop (e : event) : bool := match e with Push _ _ | Pop _ _ => true | _ => false end.
+
+(* well bracketed, and everything between `Push e id` and its `Pop e id`
+   belongs to `scope id` *)
+Inductive scoped (scope : N -> list N) : list event -> Prop :=
+| sc_nil : scoped scope []
+| sc_ev e l : is_push_pop e = false -> scoped scope l -> scoped scope (e :: l)
+| sc_wrap e id l1 l2 :
+    scoped scope l1 -> (forall x, In x l1 -> In (ev_id x) (scope id)) -> scoped scope l2 ->
+    scoped scope (Push e id :: l1 ++ Pop e id :: l2).
+
+Lemma scoped_app scope l1 l2 : scoped scope l1 -> scoped scope l2 -> scoped scope (l1 ++ l2).
+Proof.
+  induction 1 as [|e l He H IH|e id a b Ha IHa Hin Hb IHb]; intros H2; simpl.
+  - exact H2.
+  - constructor; auto.
+  - rewrite <- app_assoc. simpl. apply sc_wrap; auto.
+Qed.
+
+Lemma scoped_flat_map {A} scope (f : A -> list event) l :
+  (forall a, In a l -> scoped scope (f a)) -> scoped scope (flat_map f l).
+Proof.
+  induction l as [|a r IH]; intros H; simpl; [constructor|].
+  apply scoped_app; [apply H; left; reflexivity|apply IH; intros x Hx; apply H; right; exact Hx].
+Qed.
+
+Lemma scoped_wrap scope e on id l :
+  scoped scope l -> (forall x, In x l -> In (ev_id x) (scope id)) -> scoped scope (wrap e on id l).
+Proof.
+  intros H Hin. unfold wrap. destruct on; [|exact H].
+  change (Push e id :: l ++ [Pop e id]) with (Push e id :: l ++ Pop e id :: []).
+  apply sc_wrap; auto. constructor.
+Qed.
+
+Lemma scoped_plain scope l : forallb (fun e => negb (is_push_pop e)) l = true -> scoped scope l.
+Proof.
+  induction l as [|e r IH]; intros H; [constructor|]. simpl in H. apply andb_true_iff in H.
+  destruct H as [He Hr]. apply sc_ev; [apply negb_true_iff; exact He|auto].
+Qed.
+
+
+(* a generic induction principle for the specification: a property of event
+   lists indexed by the box they are painted for, closed under concatenation,
+   group wrappers, and passing from a descendant to an ancestor *)
+Section SpecInd.
+  Variable forms_ctx : binfo -> bool.
+  Variable level : binfo -> Z.
+  Variable zsort : list box -> list box.
+  Hypothesis zsort_in : forall l x, In x (zsort l) -> In x l.
+  Variable Q : box -> list event -> Prop.
+  Hypothesis Q_nil : forall b, Q b [].
+  Hypothesis Q_app : forall b l1 l2, Q b l1 -> Q b l2 -> Q b (l1 ++ l2).
+  Hypothesis Q_own : forall b e, is_push_pop e = false -> ev_id e = bid (binfo_of b) -> Q b [e].
+  Hypothesis Q_sub : forall b d l, In d (subs b) -> Q d l -> Q b l.
+  Hypothesis Q_wrap : forall b e on l, Q b l -> Q b (wrap e on (bid (binfo_of b)) l).
+
+  Notation SP := (spec_ctx forms_ctx level zsort).
+
+  Lemma Q_flat_map {A} b (f : A -> list event) l : (forall a, In a l -> Q b (f a)) -> Q b (flat_map f l).
+  Proof.
+    induction l as [|a r IH]; intros H; simpl; [apply Q_nil|].
+    apply Q_app; [apply H; left; reflexivity|apply IH; intros x Hx; apply H; right; exact Hx].
+  Qed.
+
+  Lemma Q_own2 b e1 e2 : is_push_pop e1 = false -> is_push_pop e2 = false ->
+    ev_id e1 = bid (binfo_of b) -> ev_id e2 = bid (binfo_of b) -> Q b [e1; e2].
+  Proof. intros. change [e1; e2] with ([e1] ++ [e2]). apply Q_app; apply Q_own; auto. Qed.
+
+  Lemma Q_child i cs c l : In c cs -> Q c l -> Q (Box i cs) l.
+  Proof. intros Hc. apply Q_sub. apply subs_child. exact Hc. Qed.
+
+  Lemma inline_paint_Q atomic c :
+    (forall d, In d (boxes c) -> Q d (atomic d)) -> Q c (inline_paint forms_ctx atomic c).
+  Proof.
+    induction c as [i cs IH] using box_ind'. intros Hat. cbn [inline_paint].
+    destruct (PaintSpec.classify forms_ctx i); try apply Q_nil.
+    - apply Hat. left. reflexivity.
+    - destruct (css_text (bkind i)); [apply Q_own; reflexivity|].
+      destruct (css_replaced (bkind i)).
+      { change [Bg (bid i); Border (bid i); Content (bid i)] with ([Bg (bid i); Border (bid i)] ++ [Content (bid i)]).
+        apply Q_app; [apply Q_own2; reflexivity|apply Q_own; reflexivity]. }
+      change (Q (Box i cs) ([Bg (bid i); Border (bid i)] ++ flat_map (inline_paint forms_ctx atomic) cs)).
+      apply Q_app; [apply Q_own2; reflexivity|].
+      apply Q_flat_map. intros c Hc. apply (Q_child i cs c _ Hc).
+      rewrite Forall_forall in IH. apply IH; [exact Hc|].
+      intros d Hd. apply Hat. right. destruct Hd as [<-|Hd]; [apply subs_child; exact Hc|].
+      exact (subs_trans d c (Box i cs) Hd (subs_child i cs c Hc)).
+  Qed.
+
+  Lemma block_content_Q atomic x :
+    (forall d, In d (subs x) -> Q d (atomic d)) -> Q x (block_content forms_ctx atomic x).
+  Proof.
+    destruct x as [i cs]. intros Hat. unfold block_content.
+    destruct (css_replaced (bkind i)); [apply Q_own; reflexivity|].
+    apply Q_flat_map. intros c Hc.
+    destruct (PaintSpec.cl forms_ctx c); try apply Q_nil.
+    destruct (css_line_box _); [|apply Q_nil].
+    apply (Q_child i cs c _ Hc). apply inline_paint_Q.
+    intros d Hd. apply Hat. destruct Hd as [<-|Hd]; [apply subs_child; exact Hc|].
+    exact (subs_trans d c (Box i cs) Hd (subs_child i cs c Hc)).
+  Qed.
+
+  Lemma flow_all_subs_gen b x : In x (flow_all forms_ctx b) -> x = b \/ In x (subs b).
+  Proof.
+    revert x. induction b as [i cs IH] using box_ind'. intros x Hx. simpl in Hx.
+    destruct Hx as [<-|Hx]; [left; reflexivity|right].
+    apply in_flat_map in Hx. destruct Hx as [c [Hc Hx]]. rewrite Forall_forall in IH.
+    destruct (PaintSpec.cl forms_ctx c); try (destruct Hx; fail).
+    destruct (IH c Hc x Hx) as [->|Hs]; [apply subs_child; exact Hc|].
+    exact (subs_trans x c (Box i cs) Hs (subs_child i cs c Hc)).
+  Qed.
+
+  Theorem spec_ctx_Q n : forall real b, Q b (SP n real b).
+  Proof.
+    induction n as [|n IH]; intros real b; [apply Q_nil|].
+    cbn [spec_ctx]. cbv zeta.
+    assert (HH : forall d, In d (if real then hoisted forms_ctx b else []) -> In d (subs b)).
+    { intros d Hd. destruct real; [apply (hoisted_subs_gen forms_ctx); exact Hd|destruct Hd]. }
+    assert (Hsub : forall (l : list box) (r : box -> bool), (forall d, In d l -> In d (subs b)) ->
+                   Q b (flat_map (fun d => SP n (r d) d) l)).
+    { intros l r Hl. apply Q_flat_map. intros d Hd. apply (Q_sub b d _ (Hl d Hd)). apply IH. }
+    apply Q_wrap. apply Q_wrap. apply Q_app; [|apply Q_app].
+    - destruct (css_paints_box_decoration _); [apply Q_own2; reflexivity|apply Q_nil].
+    - apply Q_wrap.
+      apply Q_app; [apply (Hsub _ (fun d => forms_ctx (binfo_of d))); intros d Hd; apply HH; apply zsort_in in Hd; apply filter_In in Hd; tauto|].
+      apply Q_app.
+      { apply Q_flat_map. intros d Hd. apply (Q_sub b d _ (flow_desc_subs_gen forms_ctx _ b d Hd)).
+        unfold block_decoration. destruct (css_table _); [apply Q_own; reflexivity|apply Q_own2; reflexivity]. }
+      apply Q_app; [apply (Hsub _ (fun _ => false)); intros d Hd; apply (flow_floats_subs_gen forms_ctx); exact Hd|].
+      apply Q_app.
+      { destruct (css_inline_box _); [|apply Q_nil]. destruct b as [i cs]. unfold inline_root_paint.
+        change (Q (Box i cs) ([Bg (bid i); Border (bid i)] ++ flat_map (inline_paint forms_ctx (fun d => SP n false d)) cs)).
+        apply Q_app; [apply Q_own2; reflexivity|].
+        apply Q_flat_map. intros c Hc. apply (Q_child i cs c _ Hc). apply inline_paint_Q. intros; apply IH. }
+      apply Q_app.
+      { apply Q_flat_map. intros x Hx.
+        destruct Hx as [<-|Hx]; [apply block_content_Q; intros; apply IH|].
+        apply (Q_sub b x _ (flow_desc_subs_gen forms_ctx _ b x Hx)). apply block_content_Q. intros; apply IH. }
+      apply Q_app; [apply (Hsub _ (fun d => forms_ctx (binfo_of d))); intros d Hd; apply HH; apply filter_In in Hd; tauto|].
+      apply (Hsub _ (fun d => forms_ctx (binfo_of d))); intros d Hd; apply HH; apply zsort_in in Hd; apply filter_In in Hd; tauto.
+    - assert (Hout : forall l, (forall x, In x l -> x = b \/ In x (subs b)) ->
+                               Q b (map (fun d => Outline (bid (binfo_of d))) l)).
+      { induction l as [|x r IHr]; intros Hl; [apply Q_nil|]. simpl.
+        change (Q b ([Outline (bid (binfo_of x))] ++ map (fun d => Outline (bid (binfo_of d))) r)).
+        apply Q_app; [|apply IHr; intros y Hy; apply Hl; right; exact Hy].
+        destruct (Hl x (or_introl eq_refl)) as [->|Hx]; [apply Q_own; reflexivity|].
+        apply (Q_sub b x _ Hx). apply Q_own; reflexivity. }
+      apply Hout. intros x Hx. apply flow_all_subs_gen. exact Hx.
+  Qed.
+End SpecInd.
+
+Section Scope.
+  Variable zsort : list box -> list box.
+  Hypothesis zsort_ok : z_then_tree_order css_level zsort.
+  Notation SPEC := (spec_ctx impl_forms_ctx css_level zsort).
+
+  Lemma zsort_in l x : In x (zsort l) -> In x l.
+  Proof. rewrite (zsort_isort zsort zsort_ok). apply (isort_in (fun b => css_level (binfo_of b)) l x). Qed.
+
+  Lemma in_boxes_sub b d x : In d (subs b) -> In x (boxes d) -> In x (boxes b).
+  Proof. intros Hd [<-|Hx]; right; [exact Hd|]. exact (subs_trans x d b Hx Hd). Qed.
+
+  Lemma ids_sub b d : In d (subs b) -> forall k, In k (ids d) -> In k (ids b).
+  Proof.
+    intros Hd k Hk. unfold ids in *. apply in_map_iff in Hk. destruct Hk as [x [<- Hx]].
+    apply (in_map (fun x => bid (binfo_of x))). exact (in_boxes_sub b d x Hd Hx).
+  Qed.
+
+  Lemma ids_self b : In (bid (binfo_of b)) (ids b).
+  Proof. unfold ids, boxes. left. reflexivity. Qed.
+
+  (* every event painted for a box names a box of its sub-tree *)
+  Theorem spec_ctx_ids n real b : forall e, In e (SPEC n real b) -> In (ev_id e) (ids b).
+  Proof.
+    apply (spec_ctx_Q impl_forms_ctx css_level zsort zsort_in
+             (fun b l => forall e, In e l -> In (ev_id e) (ids b))).
+    - intros b0 e [].
+    - intros b0 l1 l2 H1 H2 e He. apply in_app_or in He. destruct He; auto.
+    - intros b0 e _ Hid e' [<-|[]]. rewrite Hid. apply ids_self.
+    - intros b0 d l Hd H e He. apply (ids_sub b0 d Hd). auto.
+    - intros b0 e on l H e' He. unfold wrap in He. destruct on; [|auto].
+      destruct He as [<-|He]; [apply ids_self|]. apply in_app_or in He.
+      destruct He as [He|[<-|[]]]; [auto|apply ids_self].
+  Qed.
+
+  (* the ids of the sub-tree(s) of the box(es) called id in the tree root *)
+  Definition subtree_ids (root : box) (id : N) : list N :=
+    flat_map (fun x => if N.eqb (bid (binfo_of x)) id then ids x else []) (boxes root).
+
+  Lemma subtree_ids_in root b : In b (boxes root) -> forall k, In k (ids b) -> In k (subtree_ids root (bid (binfo_of b))).
+  Proof.
+    intros Hb k Hk. unfold subtree_ids. apply in_flat_map. exists b. split; [exact Hb|].
+    rewrite N.eqb_refl. exact Hk.
+  Qed.
+
+  (* between `Push e id` and its `Pop e id` lie only events of the sub-tree of
+     box id; pushes and pops are balanced and well nested *)
+  Theorem spec_ctx_scoped root n real b :
+    In b (boxes root) -> scoped (subtree_ids root) (SPEC n real b).
+  Proof.
+    intros Hb.
+    cut ((In b (boxes root) -> scoped (subtree_ids root) (SPEC n real b)) /\
+         (forall e, In e (SPEC n real b) -> In (ev_id e) (ids b))); [intros [S _]; exact (S Hb)|].
+    apply (spec_ctx_Q impl_forms_ctx css_level zsort zsort_in
+             (fun b l => (In b (boxes root) -> scoped (subtree_ids root) l) /\
+                         (forall e, In e l -> In (ev_id e) (ids b)))).
+    - intros b0. split; [intros _; constructor|intros e []].
+    - intros b0 l1 l2 [S1 I1] [S2 I2]. split.
+      + intros H0. apply scoped_app; auto.
+      + intros e He. apply in_app_or in He. destruct He; auto.
+    - intros b0 e Hpp Hid. split.
+      + intros _. apply sc_ev; [exact Hpp|constructor].
+      + intros e' [<-|[]]. rewrite Hid. apply ids_self.
+    - intros b0 d l Hd [S I]. split.
+      + intros H0. apply S. destruct H0 as [<-|H0]; right; [exact Hd|exact (subs_trans d b0 root Hd H0)].
+      + intros e He. apply (ids_sub b0 d Hd). auto.
+    - intros b0 e on l [S I]. split.
+      + intros H0. apply scoped_wrap; [auto|].
+        intros x Hx. apply (subtree_ids_in root b0 H0). auto.
+      + intros e' He. unfold wrap in He. destruct on; [|auto].
+        destruct He as [<-|He]; [apply ids_self|]. apply in_app_or in He.
+        destruct He as [He|[<-|[]]]; [auto|apply ids_self].
+  Qed.
+
+  Corollary effects_bracket_subtree_partial root :
+    scoped (subtree_ids root) (spec_paint impl_forms_ctx css_level zsort root).
+  Proof. apply spec_ctx_scoped. left. reflexivity. Qed.
+End Scope.
+
+(* the partition and the two sorts lose / duplicate no child context *)
+Lemma new_context_perm i kids cc blocks floats bac :
+  match new_context i kids cc blocks floats bac with
+  | Ctx _ _ _ neg zero pos _ _ _ => Permutation cc (neg ++ zero ++ pos)
+  end.
+Proof.
+  unfold new_context.
+  rewrite <- (isort_perm ctx_z (filter (fun c => (ctx_z c <? 0)%Z) cc)).
+  rewrite <- (isort_perm ctx_z (filter (fun c => negb (ctx_z c <? 0)%Z && negb (ctx_z c =? 0)%Z) cc)).
+  induction cc as [|c r IH]; [constructor|]. simpl.
+  destruct (Z.ltb_spec (ctx_z c) 0); destruct (Z.eqb_spec (ctx_z c) 0); simpl; try lia.
+  - constructor. exact IH.
+  - rewrite IH at 1. apply Permutation_middle.
+  - rewrite IH at 1. rewrite app_assoc. rewrite (app_assoc _ _ (c :: _)).
+    apply Permutation_middle.
+Qed.
